@@ -82,6 +82,18 @@ def run(ctx):
     def lap(what):
         ctx.log(f"{what}: t+{time.time() - t00:.1f}s")
 
+    # --replay <file>: re-run exactly the schedule / history of a recorded violation
+    rp_sched = rp_docs = None
+    if getattr(ctx, "replay", None):
+        case = json.loads(Path(ctx.replay).read_text()).get("case") or {}
+        if "sched" in case:
+            rp_sched = (case["k"], case["calls"], case["sched"], case["raises"])
+        elif "docs" in case:
+            rp_docs = list(case["docs"])
+        else:
+            ctx.log("replay file names no schedule or history (stress runs are not reproducible): full check")
+    partial = rp_sched is not None or rp_docs is not None
+
     # ---------------------------------------------------------------- A. theorems + sensitivity
     ALL = ("TypeOK", "Residue", "BodySeesOwn", "Depth", "Mutex", "Progress")
     jobs = {
@@ -158,6 +170,8 @@ def run(ctx):
                 scheds = rng.sample(scheds, min(len(scheds), 700 if (k, c) == (2, 2) else 2000))
             for s in scheds:
                 sched_jobs.append((k, c, s, [[rng.random() < 0.25 for _ in range(c)] for _ in range(k)]))
+    if partial:
+        sched_jobs = [rp_sched] if rp_sched else []
     ctx.log(f"schedules enumerated by TLC: {counts}; replaying {len(sched_jobs)}")
     lap("dumps parsed")
     rng.shuffle(sched_jobs)
@@ -195,14 +209,17 @@ def run(ctx):
     (sc / "docs.json").write_text(json.dumps(docs))
 
     # start replay + stress + baseline workers together
-    n_stress = 6 if ctx.thorough else 2
+    n_stress = 0 if partial else (6 if ctx.thorough else 2)
     pdf_ids = [d for d in docs if d.startswith("fx:pdf/") or d.startswith("gen:") and d.endswith(".pdf")]
     pdf_ids += ["font:f:1.2", "font:g:3.4"]                     # distinct fonts: no font-cache interaction here
     for i in range(n_stress):
         (sc / f"stress-{i}.in.json").write_text(json.dumps({
             "seed": ctx.seed * 101 + i, "threads": 8, "per_thread": 14 if ctx.thorough else 7,
+            "tmp": str(sc / f"tmp-stress-{i}"),
             "docs": {d: docs[d] for d in pdf_ids}}))
-    doc_ids = sorted(docs)
+    doc_ids = sorted(docs) if not partial else sorted(set(rp_docs or []) & set(docs))
+    if rp_docs and len(doc_ids) != len(set(rp_docs)):
+        raise MachineryError(f"replay names documents that do not exist here: {sorted(set(rp_docs) - set(docs))}")
     with ThreadPoolExecutor(nproc + n_stress + 4) as ex:
         f_replay = [ex.submit(_spawn, ["replay", sc / f"replay-{i}.in.json", sc / f"replay-{i}.out.json"])
                     for i in range(nproc)]
@@ -216,14 +233,15 @@ def run(ctx):
     lap("replay, stress and baseline workers")
     baseline = dict(zip(doc_ids, base_out))
     for d, a in baseline.items():
-        if not (a["cfg"] and a["tmp"] and a["fds"]):
+        if not (a["cfg"] and a["tmp"] and a["fds"] and a["fns"]):
             v.violation(what=f"a single extraction in a fresh process leaves residue: document {d}: "
                              f"config unchanged={a['cfg']} temp root unchanged={a['tmp']} ({a.get('tmp_new')}) "
-                             f"no new open files={a['fds']} ({a.get('fds_new')})",
+                             f"no new open files={a['fds']} ({a.get('fds_new')}) third-party functions "
+                             f"unchanged={a['fns']} ({a.get('fns_changed')})",
                         case={"doc": d}, where="extractor of that format")
         if a["patches"] and docs[d]["cls"] == "plain":
             docs[d]["cls"] = "aesT"                             # a fixture that triggers the AES patch
-    if aes and not baseline["aesT"]["patches"]:
+    if "aesT" in baseline and not baseline["aesT"]["patches"]:
         raise MachineryError("generated AES-256 PDF does not trigger the AES patch in isolation: model class wrong")
 
     # ---- B verdicts: validate the replayed schedules with TLC (UseLock = TRUE)
@@ -291,8 +309,13 @@ def run(ctx):
                         where="pdf_extractor.py:_patched_build_char_map")
         if o["errors"]:
             v.violation(what=f"stress worker thread crashed: {o['errors'][:2]}", case={"stress": t["id"]})
+        rs = o["residue"]
+        if not all(rs[k_] for k_ in ("aesfn", "fns", "cfg", "tmp", "fds")):
+            v.violation(what=f"after the stress run process-global state is not back: {rs}", case={"stress": t["id"]},
+                        where="pdf_extractor.py / module-level state")
     ev.replayed(len(s_traces))
-    ev.sample({"stress": s_traces[0]["id"], "events": len(s_traces[0]["ev"]), "first": s_traces[0]["ev"][:8]})
+    if s_traces:
+        ev.sample({"stress": s_traces[0]["id"], "events": len(s_traces[0]["ev"]), "first": s_traces[0]["ev"][:8]})
 
     lap("stress traces validated")
     # ---------------------------------------------------------------- D. histories
@@ -307,7 +330,7 @@ def run(ctx):
         hists = [h for h in hists if not any(d[0] in ("aesT", "aesU") for d in h)]
     plain_pool = [d for d in sorted(baseline) if docs[d]["cls"] == "plain"]
     hjobs = []
-    for h in hists:
+    for h in ([] if partial else hists):
         ids = []
         for (k, f, g) in h:
             if k == "font":
@@ -319,6 +342,9 @@ def run(ctx):
         hjobs.append({"id": "abs:" + "|".join(ids), "docs": ids})
     n_orders = 10 if ctx.thorough else 3
     everything = sorted(baseline)
+    if partial:
+        hjobs = [{"id": "replay", "docs": rp_docs}] if rp_docs else []
+        n_orders = 0
     for i in range(n_orders):
         ids = everything[:]
         rng.shuffle(ids)
@@ -389,7 +415,8 @@ def run(ctx):
             detail.append(f"{did}: {x['sig'][:70]} (isolated: {baseline[did]['sig'][:70]})")
             kept.append(did)
         r_ = o["residue"]
-        evs.append({"a": "Residue", "fns": r_["fns"], "cfg": r_["cfg"], "tmp": r_["tmp"], "fds": r_["fds"]})
+        evs.append({"a": "Residue", "aesfn": r_["aesfn"], "fns": r_["fns"], "cfg": r_["cfg"], "tmp": r_["tmp"],
+                    "fds": r_["fds"]})
         detail.append(json.dumps(r_))
         h_traces.append({"id": j["id"], "hdr": {"docs": kept}, "ev": evs, "detail": detail})
     slim = [{k: t[k] for k in ("id", "hdr", "ev")} for t in h_traces]
@@ -411,25 +438,27 @@ def run(ctx):
         asb = {t["id"]: tv2 for (t, _), tv2 in zip(in_dom, br2.verdicts)}
     shown = 0
     for t, tv in rejected:
-        r_ = max(tv.reached, 0)
-        e = t["ev"][r_] if r_ < len(t["ev"]) else None
         a2 = asb.get(t["id"])
         if a2 is not None and a2.accepted:
+            r_ = tv.reached
             v.known(KF_AES, f"history {t['hdr']['docs'][:4]}{'...' if len(t['hdr']['docs']) > 4 else ''} deviates "
                             f"from the reference model and TLC accepts it under PermanentAesPatch"
-                            + (f" (first deviating event {r_ + 1}: {e})" if tv.reached >= 0 else ""),
+                            + (f" (first deviating event {r_ + 1}: {t['ev'][r_]})" if 0 <= r_ < len(t["ev"]) else ""),
                     case={"docs": t["hdr"]["docs"][:12]})
             continue
-        if a2 is not None:                                       # in the domain, but a different wrong observation
-            r_ = max(a2.reached, 0)
-            e = t["ev"][r_] if r_ < len(t["ev"]) else None
+        r_ = a2.reached if a2 is not None else tv.reached        # in the domain, but a different wrong observation
         shown += 1
         if shown > MAX_REPORT:
             continue
-        det = t["detail"][r_] if r_ < len(t["detail"]) else None
+        if not 0 <= r_ < len(t["ev"]):                           # not located (beyond the diagnose budget)
+            bad = [i for i, e in enumerate(t["ev"]) if e["a"] == "Residue" and not all(e[k] for k in ("fns", "cfg", "tmp", "fds"))
+                   or e["a"] == "Extract" and not e["same"] and e["d"] in ("plain", "font")]
+            r_ = bad[0] if bad else len(t["ev"]) - 1
+        e = t["ev"][r_]
         v.violation(what=f"history {t['id'] if len(t['id']) < 120 else t['id'][:120] + '...'}: event {r_ + 1} "
-                         f"{e} ({det}) is not what the history-independent model allows: the result depends on "
-                         f"what the process extracted before, or residue is left ({len(rejected)} histories rejected)",
+                         f"{e} ({t['detail'][r_]}) is not what the history-independent model allows: the result "
+                         f"depends on what the process extracted before, or residue is left "
+                         f"({len(rejected)} histories rejected)",
                     case={"docs": t["hdr"]["docs"][: r_ + 1]}, expected="observation of the same document in a fresh "
                     "process; unchanged config / temp root / open files / third-party functions",
                     observed=e, where="pdf_extractor.py:_ttf_get_glyph_features/_FONT_CACHE; module-level state")
@@ -502,6 +531,10 @@ def _signature(path):
     return "OK:" + hashlib.sha256(blob.encode()).hexdigest(), (rs[0] if rs else None), None
 
 
+# what _pypdf_aes_fallback.patch_pypdf_fallback_aes replaces (finding KF-C15-01 covers exactly these)
+_AES_FN = re.compile(r"^pypdf\.(_crypt_providers(\._fallback)?|_encryption)\.(aes_(ecb|cbc)_(en|de)crypt|CryptAES(\.\w+)?)$")
+
+
 class _Residue:
     """process-global state the library may touch, read before and after"""
 
@@ -551,11 +584,13 @@ class _Residue:
         gc.collect()
         now = self._functions()
         changed = sorted(".".join(k) for k, val in self.fns.items() if k in now and now[k] is not val)
+        aes_changed = [c for c in changed if _AES_FN.match(c)]
+        changed = [c for c in changed if not _AES_FN.match(c)]
         tmp_new = sorted(set(os.listdir(self.tmp)) - set(self.tmp0))
         fds = self._fds()
         fds_new = sorted(t for fd, t in fds.items() if fd not in self.fds0 and t.startswith("/")
                          and not t.startswith(("/dev/", "/proc/")))
-        return {"fns": not changed, "fns_changed": changed[:6], "cfg": self.ax._config == self.cfg0,
+        return {"aesfn": not aes_changed, "fns": not changed, "fns_changed": changed[:6], "cfg": self.ax._config == self.cfg0,
                 "tmp": not tmp_new, "tmp_new": tmp_new[:4], "fds": not fds_new, "fds_new": fds_new[:4]}
 
 
@@ -579,7 +614,7 @@ def _worker_base(docs_json, doc_id, tmp):
     res = _Residue(tmp)
     sig, _first, _exc = _signature(d["path"])
     r = res.read()
-    print(json.dumps({"sig": sig, "patches": not r["fns"], **r}))
+    print(json.dumps({"sig": sig, "patches": not r["aesfn"], **r}))
 
 
 def _worker_hist(docs_json, inp, out, tmp):
@@ -608,7 +643,11 @@ def _worker_stress(inp, out):
     _quiet()
     import threading
     job = json.loads(Path(inp).read_text())
+    _prep_tmp(job["tmp"])
     from ..c15_sched import Harness
+    import sharepoint2text  # noqa
+    import pypdf._crypt_providers._fallback  # noqa
+    residue = _Residue(job["tmp"])
     rng = random.Random(job["seed"])
     ids = sorted(job["docs"])
     plans = []
@@ -647,6 +686,7 @@ def _worker_stress(inp, out):
         events = rec.events + [{"a": "Quiescent", "fn": chain}]
         res = {"events": events, "residue_chain": chain, "identity": cur is h.b.original,
                "name": getattr(cur, "__name__", "?"), "sigs": sigs, "errors": errors}
+    res["residue"] = residue.read()                # after the interception has been removed
     Path(out).write_text(json.dumps(res))
 
 
